@@ -262,9 +262,44 @@ DHVF = fun("decoded_header", S, S)    # the decoded text of a non-empty header v
                                       # that this is what decode_header_value returns is its verified postcondition
 
 
+UNFOLD = fun("rfc5322_unfold", S, S)   # RFC 5322 2.2.3: every line break that is followed by a space or tab removed
+RESUB = fun("re_sub", S, S, S, S)      # re.sub(pattern, repl, s) for any other pattern (PY-RE: total, uninterpreted)
+UNFOLD_TABLE = ["", "a", "a b", "a\n b", "a\r\n\tb", "a\n b\n  c", "a\nb", "\n a", "a\n", "a \n", "a\r\n b\r\n", "x\r b", "a\n\n b", "a\r\n\r\n\tb", "\t\n "]
+
+
+def ref_unfold(s_):
+    out, i = [], 0
+    while i < len(s_):
+        if s_[i] == "\n" and i + 1 < len(s_) and s_[i + 1] in " \t":
+            i += 1
+            continue
+        if s_[i] == "\r" and s_[i + 1:i + 2] == "\n" and i + 2 < len(s_) and s_[i + 2] in " \t":
+            i += 2
+            continue
+        out.append(s_[i])
+        i += 1
+    return "".join(out)
+
+
+_UNFOLD_PATS = {}
+
+
+def is_unfold_pattern(pat, repl):
+    """Bounded check (table UNFOLD_TABLE, real `re`): re.sub(pat, repl, s) unfolds s.  Listed in BOUNDED."""
+    import re
+    key = (pat, repl)
+    if key not in _UNFOLD_PATS:
+        try:
+            rx = re.compile(pat)
+            _UNFOLD_PATS[key] = all(rx.sub(repl, x) == ref_unfold(x) for x in UNFOLD_TABLE)
+        except re.error:
+            _UNFOLD_PATS[key] = False
+    return _UNFOLD_PATS[key]
+
+
 def dhv_term(none, s):
-    """Spec of decode_header_value: '' for a missing/empty header, else the concatenation of the decoded chunks."""
-    return z3.If(z3.Or(none, z3.Length(s) == 0), EMPTY, DHVF(s))
+    """Spec of decode_header_value: '' for a missing/empty header, else the decoded text of the UNFOLDED value."""
+    return z3.If(z3.Or(none, z3.Length(s) == 0), EMPTY, DHVF(UNFOLD(s)))
 
 
 def dhv(v):
@@ -471,6 +506,8 @@ class MailExecutor(UnitsExecutor):
 
     def to_str(self, st, v, formatted=False):
         if isinstance(v, VOpt):
+            if not isinstance(v.val, VStr):
+                return VStr(z3.String(fresh_name("str")))
             return VStr(z3.If(v.none, z3.StringVal("None"), v.val.t))
         return super().to_str(st, v, formatted)
 
@@ -511,10 +548,11 @@ class MailExecutor(UnitsExecutor):
                 return self.m_encode(st, obj, args, kwargs, node)
             if name in ("strip", "lstrip", "rstrip") and len(args) == 1 and isinstance(args[0], VStr) and args[0].const() is not None:
                 return [(st, VStr(fun(f"str_{name}_chars", S, S, S)(obj.t, args[0].t)))]
-            if name == "rstrip" and len(args) == 1 and isinstance(args[0], VBytes):
-                if bytes(x.const() for x in args[0].items) != b"\r\n":
-                    return [(st, VStr(fun("bytes_rstrip_" + bytes(x.const() for x in args[0].items).hex(), S, S)(obj.t)))]
-                return [(st, VStr(RSTRIP_EOL(obj.t)))]
+            if name in ("strip", "lstrip", "rstrip") and len(args) == 1 and isinstance(args[0], VBytes) and all(x.const() is not None for x in args[0].items):
+                chars = bytes(x.const() for x in args[0].items)
+                if name == "rstrip" and chars == b"\r\n":
+                    return [(st, VStr(RSTRIP_EOL(obj.t)))]
+                return [(st, VStr(fun(f"bytes_{name}_{chars.hex()}", S, S)(obj.t)))]
         return super().call_method(st, obj, name, args, kwargs, node)
 
     def str_slice(self, st, base, sl, node):
@@ -723,6 +761,15 @@ class MailExecutor(UnitsExecutor):
             self.exc_any(st.fork(), f"{self.loc(node)} extractor call")
             return [(st, VUnk("results"))]
         return super().call(st, f, args, kwargs, node)
+
+    def b_reversed(self, st, args, kwargs, node):
+        v = args[0]
+        if isinstance(v, VRef) and st.obj(v.ref).kind == "alist":
+            v = st.obj(v.ref).data
+        if isinstance(v, VSeq):
+            n, el = v.length, v.elem
+            return [(st, VSeq(n, lambda k: el(n - 1 - k), v.ekind))]
+        return super().b_reversed(st, args, kwargs, node)
 
     def b_getattr(self, st, args, kwargs, node):
         a0 = args[0]
@@ -1124,6 +1171,38 @@ def install(reg):
         return [(st, VOpt(AD_NONE(a, z3.StringVal(key)), VStr(AD_STR(a, z3.StringVal(key)))))]
 
     reg.method_models[("AttDict", "get")] = m_att_get
+
+    # ---- re.compile / sub ------------------------------------------------------------------
+    RePat = fun("re_compiled", S, PatS)
+
+    def m_re_compile(ex, st, args, kwargs, node):
+        pat = args[0].const() if args and isinstance(args[0], VStr) else None
+        if pat is None or len(args) > 1:
+            raise Unsupported(f"{ex.loc(node)} re.compile of a non-constant str pattern / with flags")
+        return [(st, VExt("RePattern", RePat(z3.StringVal(pat))))]
+
+    def sub_term(pat, repl, s_):
+        rc = repl.const() if isinstance(repl, VStr) else None
+        if pat is not None and rc is not None and is_unfold_pattern(pat, rc):
+            return UNFOLD(s_)
+        return RESUB(z3.StringVal(pat if pat is not None else "?"), repl.t, s_)
+
+    def m_pat_sub(ex, st, o, a, k, n):
+        t = o.t
+        pat = t.arg(0).as_string() if z3.is_app(t) and t.decl().name() == "re_compiled" and z3.is_string_value(t.arg(0)) else None
+        if pat is None or len(a) != 2 or not isinstance(a[1], VStr):
+            raise Unsupported(f"{ex.loc(n)} pattern.sub on an unknown pattern")
+        return [(st, VStr(sub_term(pat, a[0], a[1].t)))]
+
+    def m_re_sub(ex, st, args, kwargs, node):
+        pat = args[0].const() if args and isinstance(args[0], VStr) else None
+        if pat is None or len(args) != 3 or not isinstance(args[2], VStr):
+            raise Unsupported(f"{ex.loc(node)} re.sub with a non-constant pattern")
+        return [(st, VStr(sub_term(pat, args[1], args[2].t)))]
+
+    reg.ext_models["re.compile"] = m_re_compile
+    reg.ext_models["re.sub"] = m_re_sub
+    reg.method_models[("RePattern", "sub")] = m_pat_sub
 
     # ---- re.search on a constant pattern ------------------------------------------------
     def m_re_search(ex, st, args, kwargs, node):
